@@ -26,7 +26,8 @@ MARKUP = ["''", "'''", "[[", "]]", "{{", "}}", "{{{", "}}}", "|", "=", "==", "*"
           "<!--", "-->", "<ref>", "</ref>", "<nowiki>", "</nowiki>", "<pre>", "</pre>", "</source>", "</math>", "<math>", "&amp;", "&lt;",
           "&#65;", "&#x42;", "{|", "|}", "|-", "||", "!", "http://x.org/a", "----", "~~~~", "[http://y.org z]", "{{echo|w}}", "{{{1}}}",
           "foo", "Bar", "x", "1", "<div>", "</div>", "<i>", "</i>", "<s>", "__TOC__", "<gallery>", "</gallery>", "<timeline>", "<source>",
-          "<syntaxhighlight>", "</syntaxhighlight>", "</timeline>", "<", ">", "/", "&", "<nowiki/>", "<references/>"]
+          "<syntaxhighlight>", "</syntaxhighlight>", "</timeline>", "<", ">", "/", "&", "<nowiki/>", "<references/>",
+          "<noinclude>", "</noinclude>", "<includeonly>", "</includeonly>", "<onlyinclude>", "</onlyinclude>", "<noinclude/>", "<includeonly />"]
 
 TAGS = ["nowiki", "pre", "math", "source", "syntaxhighlight", "timeline"]
 
@@ -54,7 +55,7 @@ def closes_itself(tag, body):
 
 SPELL = {"<": ["&lt;", "&#60;", "&#x3c;"], ">": ["&gt;", "&#62;", "&#x3E;"], "&": ["&amp;", "&#38;"], "'": ["&#39;", "&#x27;"],
          "[": ["&#91;"], "{": ["&#123;"], "|": ["&#124;"], "=": ["&#61;"]}
-INNER_NAMES = ["nowiki", "pre", "b", "ref", "math", "source", "gallery", "div", "NoWiki", "br"]
+INNER_NAMES = ["nowiki", "pre", "b", "ref", "math", "source", "gallery", "div", "NoWiki", "br", "noinclude", "includeonly", "onlyinclude"]
 
 
 def respell(rng, body, p=0.5):
@@ -152,7 +153,8 @@ def check_case(tag, body, ctxname):
         caps0 = [c for _, c in p0]
         caps1 = [c for _, c in p1]
         if caps0.count(placeholder) != n:
-            return None               # the context does not carry this tag (not the body's business)
+            # every context carries every tag on the unchanged tree: a lost placeholder body is a lost body
+            return f"the body {placeholder!r} did not reach the tree as the {tag} caption: {caps0!r}"
         if caps1.count(want) < n or len(caps1) != len(caps0):
             return f"{tag} caption(s) {caps1!r} are not the body {want!r}"
         if merge_T(s0) != merge_T(s1):
@@ -162,7 +164,7 @@ def check_case(tag, body, ctxname):
         return None
     txt0, txt1 = "".join(t0), "".join(t1)
     if txt0.count(placeholder) != n:
-        return None
+        return f"the body {placeholder!r} did not reach the tree verbatim: text {txt0!r}"
     if merge_T(s0) != merge_T(s1):
         return f"the body was interpreted: structure {merge_T(s1)} instead of {merge_T(s0)}"
     if txt1 != txt0.replace(placeholder, want):
